@@ -121,6 +121,64 @@ func factsC17() {
 	})
 	addStrList("c17PreTrackContexts", ctxs,
 		"ingress.go trackAddedIngress: right-hand resource type of every pre-tracking call (no ResourceAcmeData: an existing storage may be acquired again without being removed, Acquire copes with it)")
+	// the acme.Cache of the controller: which parts of the Secret decide "missing or unreadable" (vsec mode)
+	ch := "pkg/controller/services/cache.go"
+	gs := methodDecl(ch, "c", "GetTLSSecretContent")
+	addStrList("c17GetSecretConds", c17IfConds(ch, gs),
+		"cache.go GetTLSSecretContent: every if condition in source order (get failed, tls.crt absent, PEM/x509 check failed; no test of secret.Type)")
+	addStrList("c17GetSecretFields", c17RecvFields(gs, "secret"),
+		"cache.go GetTLSSecretContent: fields of the Secret it reads, sorted (Data only: the verdict cannot depend on .type)")
+	addStrList("c17GetSecretDataKeys", c17IndexKeys(ch, gs, "secret.Data"),
+		"cache.go GetTLSSecretContent: keys of secret.Data it reads (tls.crt only: tls.key and ca.crt are not looked at)")
+	addStrList("c17GetSecretCalls", methodCalls(ch, "c", "GetTLSSecretContent"), "cache.go GetTLSSecretContent: selector calls in source order")
+	addStrList("c17SetSecretAssigns", c17AssignsAll(ch, methodDecl(ch, "c", "SetTLSSecretContent")),
+		"cache.go SetTLSSecretContent: assignments (type kubernetes.io/tls, data = exactly tls.crt and tls.key)")
+	addStrList("c17CreateOrUpdateCalls", methodCalls(ch, "c", "createOrUpdate"), "cache.go createOrUpdate: selector calls in source order")
+	sl := "pkg/controller/services/ssl.go"
+	gc := methodDecl(sl, "SSL", "getCertificate")
+	addStrList("c17GetCertificateConds", c17IfConds(sl, gc),
+		"ssl.go getCertificate (what the controller accepts as a certificate): if conditions (both tls.crt and tls.key non-empty)")
+	addStrList("c17GetCertificateFields", c17RecvFields(gc, "secret"),
+		"ssl.go getCertificate: fields of the Secret it reads, sorted (no Type: HAProxy is given secrets of any type)")
+	addStrList("c17GetCertificateDataKeys", c17IndexKeys(sl, gc, "secret.Data"), "ssl.go getCertificate: keys of secret.Data it reads")
+	addStrList("c17BuildCertCalls", methodCalls(sl, "SSL", "buildCertFromCrtAndKey")[:1],
+		"ssl.go buildCertFromCrtAndKey: first selector call (the loader validates with validateCrtAndKey before anything is written)")
+	addStrList("c17ValidateCalls", methodCalls(sl, "SSL", "validateCrtAndKey"),
+		"ssl.go validateCrtAndKey: selector calls in source order (certificate PEM check, key PEM check, tls.X509KeyPair, then the ca.crt check and chain verification)")
+	addStrList("c17ValidateConds", c17IfConds(sl, methodDecl(sl, "SSL", "validateCrtAndKey")),
+		"ssl.go validateCrtAndKey: if conditions in source order")
+	addStrList("c17GetSecretValidateArgs", callArgsAll(ch, gs, "c.sslCerts.validateCrtAndKey"),
+		"cache.go GetTLSSecretContent: arguments of the validateCrtAndKey call (tls.crt, tls.key, ca.crt of the Secret)")
+	addStrList("c17CheckCertPEMConds", c17IfConds(sl, methodDecl(sl, "SSL", "checkValidCertPEM")),
+		"ssl.go checkValidCertPEM: if conditions (zero bytes run no iteration: (nil, nil))")
+	addStrList("c17CheckCertPEMLoop", []string{c17Src(sl, methodDecl(sl, "SSL", "checkValidCertPEM").Body.List[1].(*ast.ForStmt).Cond)},
+		"ssl.go checkValidCertPEM: loop condition")
+}
+
+// callArgsAll: arguments (source text) of every call of callee inside fd
+func callArgsAll(rel string, fd *ast.FuncDecl, callee string) []string {
+	var res []string
+	ast.Inspect(fd.Body, func(n ast.Node) bool {
+		if c, ok := n.(*ast.CallExpr); ok && calleeName(c.Fun) == callee {
+			for _, a := range c.Args {
+				res = append(res, c17Src(rel, a))
+			}
+		}
+		return true
+	})
+	return res
+}
+
+// c17IndexKeys: index expressions `<base>[k]` inside fd, the k as source text, source order
+func c17IndexKeys(rel string, fd *ast.FuncDecl, base string) []string {
+	var res []string
+	ast.Inspect(fd.Body, func(n ast.Node) bool {
+		if ix, ok := n.(*ast.IndexExpr); ok && c17Src(rel, ix.X) == base {
+			res = append(res, c17Src(rel, ix.Index))
+		}
+		return true
+	})
+	return res
 }
 
 // c17AssignsAll: every assignment inside fd as source text
